@@ -338,11 +338,17 @@ def pyzx_value(sc, vals: dict) -> complex:
 # inputs
 # =====================================================================================
 
-def gen_circuit(rng, nq, depth, rot):
+def gen_circuit(rng, nq, depth, rot, max_magic=8):
+    """random circuit text; at most `max_magic` non-Clifford gates (the stabilizer decomposition is exponential in them)"""
     L = ["R " + " ".join(map(str, range(nq)))]
+    magic = 0
     for _ in range(depth):
         k = rng.random()
         q = rng.randrange(nq)
+        if (0.24 <= k < 0.46 or 0.85 <= k < 0.94) and magic >= max_magic:
+            k = 0.1
+        if 0.24 <= k < 0.46 or (0.85 <= k < 0.94 and rot):
+            magic += 1
         if k < 0.17:
             L.append(f"H {q}")
         elif k < 0.24:
@@ -391,7 +397,7 @@ def harvest(ctx: Ctx, n_circuits: int, max_lists: int):
     try:
         for i in range(n_circuits):
             nq = ctx.rng.randrange(2, 7)
-            txt = gen_circuit(ctx.rng, nq, ctx.rng.randrange(10, 46), rot=(i % 3 == 0))
+            txt = gen_circuit(ctx.rng, nq, ctx.rng.randrange(10, 46), rot=(i % 3 == 0), max_magic=7 if ctx.quick else 10)
             n0 = len(rec)
             try:
                 tsim.Circuit(txt).compile_sampler(seed=1)
@@ -405,6 +411,9 @@ def harvest(ctx: Ctx, n_circuits: int, max_lists: int):
                     ctx.cov.setdefault("harvest_unmodelled", []).append(r[1])
                     continue
                 graphs, params = r
+                if len(graphs) > (300 if ctx.quick else 2500):
+                    ctx.cov["harvested_lists_dropped_too_large"] = ctx.cov.get("harvested_lists_dropped_too_large", 0) + 1
+                    continue
                 key = json.dumps([graphs, params], sort_keys=True)
                 if key in seen:
                     continue
